@@ -199,6 +199,10 @@ struct Local<S: Strat> {
     handles: Vec<VArc>,
     caches: HashMap<usize, (Cache<&'static Cont<S>, V>, usize, u64)>,
     in_dtor: bool,
+    /// the generation counter may be preset once per thread only: presetting it a second time
+    /// would move it *backwards* and make generations repeat within the life of a node, which the
+    /// crate never does (a false alarm of this harness, seed 4 of the silence runs)
+    gen_preset: bool,
 }
 
 impl<S: Strat> Shared<S> {
@@ -296,7 +300,7 @@ fn set_tag(id: u64) {
 
 impl<S: Strat> Local<S> {
     fn new(tid: usize) -> Self {
-        Local { tid, guards: Vec::new(), mguards: Vec::new(), handles: Vec::new(), caches: HashMap::new(), in_dtor: false }
+        Local { tid, guards: Vec::new(), mguards: Vec::new(), handles: Vec::new(), caches: HashMap::new(), in_dtor: false, gen_preset: false }
     }
 
     fn recv(&mut self, sh: &Shared<S>) {
@@ -979,7 +983,8 @@ impl<S: Strat> Local<S> {
             Op::TempCont(n, consume) => self.do_temp(sh, *n, *consume),
             Op::SetGen(j) => {
                 // make sure the thread-local exists, then preset its generation counter
-                if !self.in_dtor {
+                if !self.in_dtor && !self.gen_preset {
+                    self.gen_preset = true;
                     verif::set_generation(usize::MAX - 3 - 4 * (*j as usize));
                     sh.hs(|h| h.wrap_loads += 1);
                 }
